@@ -1,7 +1,8 @@
 #!/bin/bash
 # Confirms proposed mutants (seeded_staging/<id>/) in a scratch worktree of /repo:
 #  1. patch applies to current /repo HEAD, 2. crate builds with all features, 3. existing suite (674 lib tests) passes,
-#  4. demo fails with the change, 5. demo passes without it.  Result -> seeded_staging/<id>/confirm.json
+#  4. demo (demo.rs as an integration test, or demo.sh run from the worktree root) fails with the change, 5. passes without it
+#  (behaviour-preserving refactorings carry no demo: 4 and 5 are null).  Result -> seeded_staging/<id>/confirm.json
 WT=/tmp/wt/confirm
 FEAT="vec8 vec16 vec32 vec64 rgb rgba uv uvw"
 git -C /repo worktree remove --force $WT 2>/dev/null
@@ -15,14 +16,22 @@ for d in "${ARGS[@]}"; do
   applies=false; builds=false; suite=false; demo_fails=false; demo_passes_clean=false
   if git apply --check $d/patch.diff 2>/dev/null; then applies=true; fi
   if $applies; then
-    mkdir -p tests; cp $d/demo.rs tests/demo.rs
-    if cargo test --offline --features "$FEAT" --test demo > $d/demo_clean.log 2>&1; then demo_passes_clean=true; fi
+    if [ -f $d/demo.rs ]; then
+      mkdir -p tests; cp $d/demo.rs tests/demo.rs
+      if cargo test --offline --features "$FEAT" --test demo > $d/demo_clean.log 2>&1; then demo_passes_clean=true; fi
+    elif [ -f $d/demo.sh ]; then
+      if sh $d/demo.sh > $d/demo_clean.log 2>&1; then demo_passes_clean=true; fi
+    else demo_passes_clean=null; fi
     git apply $d/patch.diff
     if cargo build --offline --features "$FEAT" > /dev/null 2>&1; then builds=true; fi
     rm -rf tests
     if cargo test --offline --lib 2>&1 | grep -q "test result: ok. 674 passed"; then suite=true; fi
-    mkdir -p tests; cp $d/demo.rs tests/demo.rs
-    if ! cargo test --offline --features "$FEAT" --test demo > $d/demo_mut.log 2>&1; then demo_fails=true; fi
+    if [ -f $d/demo.rs ]; then
+      mkdir -p tests; cp $d/demo.rs tests/demo.rs
+      if ! cargo test --offline --features "$FEAT" --test demo > $d/demo_mut.log 2>&1; then demo_fails=true; fi
+    elif [ -f $d/demo.sh ]; then
+      if ! sh $d/demo.sh > $d/demo_mut.log 2>&1; then demo_fails=true; fi
+    else demo_fails=null; : > $d/demo_mut.log; fi
     tail -5 $d/demo_mut.log > $d/demo_mut.tail; rm -f $d/demo_mut.log $d/demo_clean.log
   fi
   echo "{\"id\":\"$id\",\"applies\":$applies,\"builds\":$builds,\"suite_passes\":$suite,\"demo_fails_with_change\":$demo_fails,\"demo_passes_without\":$demo_passes_clean,\"repo_head\":\"$(git -C /repo rev-parse --short HEAD)\"}" > $d/confirm.json
